@@ -26,3 +26,17 @@ func Overrun(q string) string {
 	}
 	return q[:pos+1]
 }
+
+// LastErrorOnly is the positive control for C07/R9: the error of every
+// iteration but the last is overwritten before anyone looks at it.
+func LastErrorOnly(xs []string, f func(string) (int, error)) ([]int, error) {
+	out := make([]int, len(xs))
+	var err error
+	for i, x := range xs {
+		out[i], err = f(x)
+	}
+	if err != nil {
+		return nil, err
+	}
+	return out, nil
+}
